@@ -93,6 +93,10 @@ def run(tier):
     vf.exec_and_validate(chk, binpath, "buf2", "TV_Buf2", rnd, jvms=8)
     # the random histories also in a plain release build (no debug assertions, wrapping index arithmetic)
     vf.exec_and_validate(chk, vf.build_harness("plain"), "buf2", "TV_Buf2", rnd, jvms=8)
+    # copies: clone() and clone_from() over every pair of shapes up to 4x3
+    cl = os.path.join(d, "clone_cases.ndjson")
+    vf.run_harness(binpath, ["bufclone", "gen", "--seed", vf.seed(), "--tier", tier], stdout_path=cl)
+    vf.exec_and_validate(chk, binpath, "bufclone", "TV_Buf2Clone", cl, jvms=1, what="copy")
     chk.cov["distinct_nontrivial"] = chk.cov["traces_validated_against_impl"]
     # 4. growth beyond the statement: Rect as a set of points (intersect, contains, is_empty,
     #    extents, conversions); every pair of rects TLC explores is replayed; rejections are notes
